@@ -239,6 +239,9 @@ class G:
                 e, qe = f"#{HDR[i]}", f"(NHdr {i}%nat)"
             flag = lambda n: "true" if n in names else "false"
             qs = f"(Assign.mkQ false {flag('latch')} {flag('onchange')} {flag('increase')} {flag('decrease')} {flag('notnone')} false {flag('nocontrib')})"
+            if r.random() < 0.4:      # ... under a tracking key: decided over, and written to, the value held under that key
+                key = r.choice(["a", "b", "tot"])
+                return (f"@d{v}.{key}." + ".".join(names) + f" = {e}", f"(AssignQK {qs} {v} {ulit(key)} {qe})")
             return (f"@v{v}." + ".".join(names) + f" = {e}", f"(AssignQ {qs} {v} {qe})")
         if k < 0.07 and not conditional:
             # tally() with two arguments: one store per argument (skipped for a blank value) and one under the values joined by '|';
@@ -300,7 +303,7 @@ class G:
                 if isinstance(qa, tuple):
                     out = (a, qa)          # one text component, several model components (all vote yes)
                 else:
-                    out = (a, f"(CAct (Agg {qa}))" if (qa.startswith("(AssignK") or qa.startswith("(CountIf")) else f"(CAgg {qa})")
+                    out = (a, f"(CAct (Agg {qa}))" if (qa.startswith("(AssignK ") or qa.startswith("(CountIf")) else f"(CAgg {qa})")
             else:
                 b, qb = self.bexp(1)
                 a, qa = self.agg(True)
@@ -378,6 +381,10 @@ def corner_programs():
     M = [HDR[:], ["r1", "12", "7", "a", "b"], ["r2", "7", "12", "a", "b"], ["r3", "", "4", "a", "b"], ["r4", "-3", "", "a", "b"], ["r5", "  ", "0", "a", "b"], ["r6"],
          ["r7", "0", "-4", "a", "b"], ["r8", "abc", "9", "a", "b"], ["r9", "30"]]
     return [
+        # qualified assignments under a tracking key: the latch holds the first value, onchange objects to a repeat, the other key is kept
+        P([("@d1.a.latch = int(#n)", f"(CAgg (AssignQK {Q(latch=True)} 1 {ulit('a')} (NInt (NHdr 1))))"), ("@d1.b = int(#m)", f"(CAct (Agg (AssignK 1 {ulit('b')} (NInt (NHdr 2)))))")], rows=INC),
+        P([("@d2.tot.onchange = int(#n)", f"(CAgg (AssignQK {Q(onchange=True)} 2 {ulit('tot')} (NInt (NHdr 1))))")], rows=INC),
+        P([("@d3.b = int(#m)", f"(CAct (Agg (AssignK 3 {ulit('b')} (NInt (NHdr 2)))))"), ("@d3.a.increase = int(#n)", f"(CAgg (AssignQK {Q(increase=True)} 3 {ulit('a')} (NInt (NHdr 1))))")], rows=INC),
         P([("mod(#n, 2) == 0", "(CMod false 1%nat 2 0)")], rows=M),
         P([("not(above(mod(#n, 2), 0))", "(CMod true 1%nat 2 0)")], rows=M),
         P([("mod(#m, 3) == 1", "(CMod false 2%nat 3 1)"), ("no()", "(CB BNo)")], rows=M, AND=False),
